@@ -57,7 +57,8 @@ func c12Tree(K int) []c12Entry {
 	case 0:
 		e0.data = c12Data(0, 2)
 	case 2:
-		e0.target = []string{"z", "sub/zz", "../d/z"}[verifrt.Choice(3)]
+		// link texts, clean and not (a link text is data: it comes back verbatim)
+		e0.target = []string{"z", "sub/zz", "../d/z", "./z", "sub/../z"}[verifrt.Choice(5)]
 		e0.mode = 0o777
 	}
 	tree = append(tree, e0)
